@@ -651,8 +651,8 @@ def build_jobs(root: str, pids: List[str]) -> List[tuple]:
             if not (os.path.exists(pf) and os.path.exists(mf)):
                 continue
             meta = json.load(open(mf))
-            if meta.get("obsolete_since"):
-                continue
+            if meta.get("obsolete_since") or meta.get("open_miss"):
+                continue  # open_miss: recorded as not (yet) flagged - DESIGN 10.6m lists it
             expect = meta.get("caught_by") or [meta["property"]]
             ov = None
             todo = [p for p in expect if p in pids]
